@@ -23,7 +23,7 @@ def main(tier):
     roots = {}
 
     def run(args):
-        p = subprocess.run([mlar] + args, stdout=subprocess.PIPE, stderr=subprocess.PIPE, timeout=60)
+        p = subprocess.run([mlar] + args, stdout=subprocess.PIPE, stderr=subprocess.PIPE, timeout=60, preexec_fn=limit_as)
         return p.returncode
 
     # root keys: seeded (each generated twice: determinism), plus the repository's sample X25519 key
